@@ -31,6 +31,8 @@ ASSUMPTIONS = [
     'lazy VCF sources: an unmodified lazily read table (variant lazy, Model fmt VcfL) is passed through as the canonical text '
     'it was read from (model = spec for that call; the lazy extraction itself is property C04); with a replaced POS '
     'column (variant lazypos) the model is from_data_lazy_pos = the eager serialiser (C03_vcf_pos_paths_agree)',
+    'reread tables (Model fmt DelimL / VcfL): an unmodified lazily read table, however selected and concatenated, is passed '
+    'through as the canonical text of the selected records in the selected order (model = spec for that call)',
     'SAM without optional tags: the Spec takes the eager writer\'s 12-column line (trailing TAB) as canonical; the SAM-standard '
     'spelling without it (lazy path since /repo 36989fd) reads back as the same row (C03_sam_empty_tags_spellings)']
 PARTIAL = ['C03_int_text_partial / C03_fasta_partial / C03_write_pieces_partial are about the code BEFORE the repairs (history); the '
@@ -95,7 +97,9 @@ class G:
 
     def fl(self):
         x = self.r.random()
-        if x < 0.15:
+        if x < 0.12:
+            return self.r.choice([0.0, -0.0])      # equal values with different text: 0.0 and -0.0
+        if x < 0.25:
             return self.r.choice([0.0, 1.0, -1.0, 0.5, 1e-05, 2.5e-07, 1e+16, 1e+22, 123456789.125, 0.1, 100.0, -0.001])
         j = self.r.randint(0, 6)
         k = self.r.randint(-10 ** self.r.randint(1, 7), 10 ** self.r.randint(1, 7))
@@ -295,6 +299,71 @@ def generate(tier, seed):
             sizes = [b - a for a, b in zip([0] + cuts, cuts + [n])]
         cases.append(_mk(fmt, rows, _hist(rng.choice(HKINDS), _with_zeros(sizes, rng, 0.15), rng), gz=(rng.random() < 0.3),
                          variant=variant_of(fmt), alpha=alpha, width=width, wbt=(rng.random() < 0.5)))
+    # (6) float columns holding values that compare equal but print differently (0.0 / -0.0), several rows in mixed
+    #     order, every way of splitting them over write calls
+    zvals = [0.0, -0.0, 0.0, -0.0, 1.5, -2.25, 0.5]
+    for fmt in ('bdg', 'narrowpeak'):
+        for n in ((2, 3, 4) if not thorough else (2, 3, 4, 5)):
+            comps = compositions(n)
+            for ci, sizes in enumerate(comps):
+                for rep_ in range(2 if not thorough else 4):
+                    rows = [g.row(fmt) for _ in range(n)]
+                    fcols = [j for j, kk in enumerate(KINDS[fmt]) if kk == 'F']
+                    for j in fcols:
+                        vals = [rng.choice(zvals) for _ in range(n)]
+                        a, b = rng.sample(range(n), 2)
+                        vals[a], vals[b] = 0.0, -0.0          # both zeros in the column
+                        for r, v in zip(rows, vals):
+                            r[j] = v
+                    hk = HKINDS[(ci + rep_ + n) % len(HKINDS)]
+                    cases.append(_mk(fmt, rows, _hist(hk, _with_zeros(sizes, rng, 0.1), rng), gz=((ci + rep_) % 3 == 0)))
+    # (7) tables that were READ back (lazily, the default) from a canonical file, then sliced / masked / re-ordered and
+    #     np.concatenate'd before being written: the file must hold exactly the selected rows, once
+    n_rr = 140 if not thorough else 1500
+    rr_fmts = ['bed3', 'bed6', 'bed12', 'bdg', 'narrowpeak', 'gtf', 'vcf']
+    for i in range(n_rr):
+        fmt = rr_fmts[i % len(rr_fmts)]
+        m = rng.choice([2, 3, 4, 5, 6, 8])
+        src_rows = [g.row(fmt) for _ in range(m)]
+        for r in src_rows:                       # identifiers are never empty here (that is the known reader finding)
+            for j, kk in enumerate(KINDS[fmt]):
+                if kk == 'D' and r[j] == '':
+                    r[j] = 'n%d' % j
+        sel = []                                 # list of chunks, each a list of source row numbers
+        for _ in range(rng.choice([1, 2, 2, 3, 4])):
+            kind = rng.choice(['slice', 'slice', 'mask', 'perm', 'empty'])
+            if kind == 'slice':
+                a = rng.randint(0, m - 1)
+                b = rng.randint(a + 1, m)
+                sel.append(list(range(a, b)))
+            elif kind == 'mask':
+                sel.append(sorted(rng.sample(range(m), rng.randint(1, m))))
+            elif kind == 'perm':
+                sel.append(rng.sample(range(m), rng.randint(1, m)))
+            else:
+                sel.append([])
+        if i % 5 == 0:                           # the split-and-rejoin of the whole table
+            cuts = sorted(rng.sample(range(1, m), min(m - 1, rng.randint(1, 3))))
+            sel = [list(range(a, b)) for a, b in zip([0] + cuts, cuts + [m])]
+        src_index = [x for ch in sel for x in ch]
+        rows = [src_rows[x] for x in src_index]
+        sizes = [len(ch) for ch in sel]
+        mode = i % 4
+        if mode == 0:                            # everything concatenated, one write
+            calls = [dict(stream=False, sizes=sizes, concat=True)]
+        elif mode == 1:                          # piece by piece
+            calls = [dict(stream=False, sizes=[sz]) for sz in sizes]
+        elif mode == 2:                          # a stream of the pieces
+            calls = [dict(stream=True, sizes=sizes)]
+        else:                                    # first piece alone, the rest concatenated
+            calls = [dict(stream=False, sizes=sizes[:1])] + ([dict(stream=False, sizes=sizes[1:], concat=True)] if sizes[1:] else [])
+        hist = [dict(append=False, calls=calls)]
+        if i % 7 == 3 and len(calls) > 1:
+            hist = [dict(append=False, calls=calls[:1]), dict(append=True, calls=calls[1:])]
+        c = _mk(fmt, rows, hist, gz=(i % 3 == 1), variant='reread', wbt=(i % 2 == 0))
+        c['src_rows'] = src_rows
+        c['src_index'] = src_index
+        cases.append(c)
     # (5) exhaustive small scope (thorough): bed3 / bed6, n <= 3, field alphabet of 4 symbols, width <= 3, all compositions
     if thorough:
         sym = ['', 'a', 'bc', 'def']
@@ -325,6 +394,8 @@ def _rows_for_session(case):
             for sz in c['sizes']:
                 chunks.append(rows[pos:pos + sz])
                 pos += sz
+            if c.get('concat'):      # np.concatenate of the pieces, written by ONE write call
+                chunks = [[r for ch in chunks for r in ch]]
             cs.append(chunks)
         out.append(cs)
     assert pos == len(rows), (pos, len(rows))
@@ -403,9 +474,17 @@ def observe(case):
             full = bnp.open(src).read()
             if variant == 'lazypos':
                 full = bnp.replace(full, position=np.array([r[1] for r in base], dtype=int))
+        elif variant == 'reread':
+            # the pieces are selections of a table that was READ (lazily, the default) from a canonical file
+            src = os.path.join(d, 'src' + SUFFIX[fmt])
+            with open(src, 'wb') as f:
+                f.write(_header(case) + _ref_chunk(case, case['src_rows'], set())[1].encode('latin1'))
+            back = bnp.open(src, buffer_type=rbt).read()
+            assert len(back) == len(case['src_rows'])
+            full = _Selector(back, case['src_index'], len(case['src_rows']))
         else:
             full = table(base)
-        if not rows:
+        if not rows and variant != 'reread':
             full = full[:0]
         path = os.path.join(d, 'out' + SUFFIX[fmt] + ('.gz' if case['gz'] else ''))
         pos = 0
@@ -418,7 +497,10 @@ def observe(case):
                         for sz in c['sizes']:
                             chunks.append(full[pos:pos + sz])
                             pos += sz
-                        if c['stream']:
+                        if c.get('concat'):
+                            nonempty = [ch for ch in chunks if len(ch)]
+                            f.write(np.concatenate(nonempty) if nonempty else chunks[0])
+                        elif c['stream']:
                             f.write(NpDataclassStream(iter(chunks)))
                         else:
                             f.write(chunks[0])
@@ -460,6 +542,27 @@ def observe(case):
         return out
     finally:
         shutil.rmtree(d, ignore_errors=True)
+
+
+class _Selector:
+    """full[pos:pos+sz] for a re-read table: rows pos..pos+sz of the case are rows src_index[pos..] of the table read
+    from the source file, taken as a slice when they are consecutive, a boolean mask when increasing, else an index array"""
+
+    def __init__(self, back, src_index, n_src):
+        self.back, self.idx, self.n = back, src_index, n_src
+
+    def __getitem__(self, sl):
+        import numpy as np
+        idx = self.idx[sl]
+        if not idx:
+            return self.back[0:0]
+        if idx == list(range(idx[0], idx[0] + len(idx))):
+            return self.back[idx[0]:idx[0] + len(idx)]
+        if all(a < b for a, b in zip(idx, idx[1:])):
+            m = np.zeros(self.n, dtype=bool)
+            m[idx] = True
+            return self.back[m]
+        return self.back[np.array(idx)]
 
 
 def _table_rows(r, cls, kinds):
@@ -527,14 +630,14 @@ def _fmt_term(case):
     if fmt == 'fastq':
         return 'Fastq'
     if fmt == 'vcf':
-        return {'union': 'VcfU', 'lazy': 'VcfL'}.get(case['variant'], 'Vcf')
-    return 'Delim'
+        return {'union': 'VcfU', 'lazy': 'VcfL', 'reread': 'VcfL'}.get(case['variant'], 'Vcf')
+    return 'DelimL' if case['variant'] == 'reread' else 'Delim'
 
 
 def _header(case):
     if case['fmt'] != 'vcf':
         return b''
-    if case['variant'] in ('lazy', 'lazypos'):
+    if case['variant'] in ('lazy', 'lazypos', 'reread'):
         return VCF_SRC_HEADER.encode()
     return VCF_DEFAULT_HEADER.encode()
 
@@ -549,7 +652,7 @@ def to_coq(case, o):
         calls = []
         for c, chunks in zip(s['calls'], cs):
             calls.append('{| c_stream := %s; c_chunks := %s |}' % (
-                cbool(c['stream']), clist([clist([_row(kinds, r) for r in ch], 'row') for ch in chunks], '(list row)')))
+                cbool(c['stream'] and not c.get('concat')), clist([clist([_row(kinds, r) for r in ch], 'row') for ch in chunks], '(list row)')))
         sess.append('{| s_append := %s; s_calls := %s |}' % (cbool(s['append']), clist(calls, 'call')))
     read = clist([_row(kinds, r, True) for r in o['read']], 'row') if o['read_ok'] else '(@nil row)'
     return ('{| k_fmt := %s; k_schema := %s; k_header := %s; k_gz := %s; k_hist := %s; k_err := %s; k_written := %s; '
@@ -614,7 +717,7 @@ def explain(case, o):
 
 def distribution(cases, obs):
     d = dict(fmt={}, variant={}, rows={}, pieces={}, gz=0, append_sessions=0, stream_calls=0, empty_pieces=0, edge_ints=0,
-             errors={}, read_failures=0, fasta_widths={}, alphabets={}, sam_standard_spelling_reads=0)
+             errors={}, read_failures=0, fasta_widths={}, alphabets={}, sam_standard_spelling_reads=0, reread_tables=0, concat_calls=0, signed_zero_columns=0)
     for c, o in zip(cases, obs):
         def inc(m, k):
             m[str(k)] = m.get(str(k), 0) + 1
@@ -638,6 +741,12 @@ def distribution(cases, obs):
             d['read_failures'] += 1
         if isinstance(o, dict) and 'alt' in o:
             d['sam_standard_spelling_reads'] += 1
+        d['reread_tables'] += c['variant'] == 'reread'
+        d['concat_calls'] += sum(1 for s_ in c['hist'] for cc in s_['calls'] if cc.get('concat'))
+        for j, kk in enumerate(KINDS[c['fmt']]):
+            if kk == 'F':
+                sg = set(str(float(r[j])) for r in c['rows'] if float(r[j]) == 0.0)
+                d['signed_zero_columns'] += len(sg) == 2
     return d
 
 
@@ -713,8 +822,9 @@ def _ref_run(case, T):
         hw = False
         is_ab = s['append'] and not (case['gz'] and F_GZAPP in T)
         for c, chunks in zip(s['calls'], cs):
-            todo = [ch for ch in chunks if ch] if c['stream'] else chunks
-            if c['stream'] and F_STREAM not in T and not todo and chunks:
+            stream = c['stream'] and not c.get('concat')
+            todo = [ch for ch in chunks if ch] if stream else chunks
+            if stream and F_STREAM not in T and not todo and chunks:
                 todo = [[]]
             for ch in todo:
                 if has_header and not is_ab and not hw:
